@@ -149,6 +149,13 @@ let handle ws = try (match ws with
     let idb = bytes_of_hex id and h = n_of_int (int_of_string hid) in
     let i = sm9_hash1_impl idb h and s = sm9_hash1_spec idb h in
     if i = s then hexz s else hexz s ^ " IMPLMODEL=" ^ hexz i
+  (* ---- predicates *)
+  | ["pred"; "fp2"; "equ"; a; b] -> if i2equ (t2_of a) (t2_of b) then "1" else "0"
+  | ["pred"; "fp2"; "iszero"; a] -> if i2is_zero (t2_of a) then "1" else "0"
+  | ["pred"; "fp2"; "isone"; a] -> if i2is_one (t2_of a) then "1" else "0"
+  | ["pred"; "fp4"; "equ"; a; b] -> if i4equ (t4_of a) (t4_of b) then "1" else "0"
+  | ["pred"; "fp4"; "iszero"; a] -> if i4is_zero (t4_of a) then "1" else "0"
+  | ["pred"; "fp12"; "equ"; a; b] -> if i12equ (t12_of a) (t12_of b) then "1" else "0"
   (* ---- DER layer: sm9_signature_from_der / sm9_ciphertext_from_der alone *)
   | ["dersig"; hx] ->
     (match sm9_sig_from_der (bytes_of_hex hx) with
